@@ -316,8 +316,224 @@ fn f7() {
     report("F7", fin && !lost.is_empty(), format!("abort while X runs; B was never started; records lost from the returned history: {:?}", lost));
 }
 
+
+// ---------------------------------------------------------------------------------------------
+// Sanity sweep for repairs (NOT a check and not evidence for any property: random scenarios are used only to
+// make sure a `fix:` commit does not introduce stalls or internal errors before it is proposed).
+// usage: ppg2_replay sanity <scenarios> <seed>
+struct Lcg(u64);
+impl Lcg {
+    fn next(&mut self) -> u64 {
+        self.0 = self.0.wrapping_mul(6364136223846793005).wrapping_add(1442695040888963407);
+        self.0 >> 33
+    }
+    fn below(&mut self, n: u64) -> u64 {
+        self.next() % n
+    }
+    fn chance(&mut self, pct: u64) -> bool {
+        self.below(100) < pct
+    }
+}
+
+#[derive(Default)]
+struct SanityCounts {
+    evaluations: u64,
+    internal_errors: u64,
+    panics: u64,
+    stalls: u64,
+    eph_upstream_not_executed: u64,
+    first: Vec<String>,
+}
+
+fn sanity_one(rng: &mut Lcg, c: &mut SanityCounts, tag: u64) {
+    let n = 3 + rng.below(6) as usize;
+    let mut w = World::new();
+    let mut kinds = vec![];
+    for i in 0..n {
+        let k = match rng.below(100) {
+            0..=49 => JobKind::Output,
+            50..=84 => JobKind::Ephemeral,
+            _ => JobKind::Always,
+        };
+        kinds.push(k);
+        w.node(&format!("J{}", i), k);
+    }
+    for i in 0..n {
+        for j in (i + 1)..n {
+            if rng.chance(35) {
+                w.edge(&format!("J{}", i), &format!("J{}", j));
+            }
+        }
+    }
+    let mut version = vec![0u64; n];
+    for round in 0..4 {
+        for v in version.iter_mut() {
+            if rng.chance(25) {
+                *v += 1;
+            }
+        }
+        let fails: Vec<bool> = (0..n).map(|_| rng.chance(12)).collect();
+        if round > 0 {
+            let ids: Vec<String> = w.present.iter().cloned().collect();
+            for id in ids {
+                if rng.chance(15) {
+                    w.present.remove(&id);
+                }
+            }
+        }
+        let abort_after = if rng.chance(8) { Some(rng.below(4)) } else { None };
+        c.evaluations += 1;
+        let sched_seed = rng.next();
+        let res = std::panic::catch_unwind(std::panic::AssertUnwindSafe(|| {
+            let mut r = Lcg(sched_seed);
+            let (mut g, present) = w.build();
+            let mut problems: Vec<String> = vec![];
+            let mut executed_ok: HashSet<String> = HashSet::new();
+            let mut running: Vec<String> = vec![];
+            let mut events = 0u64;
+            if let Err(e) = g.event_startup() {
+                problems.push(format!("{:?}", e));
+                return (problems, None, present.borrow().clone());
+            }
+            let mut guard = 0;
+            loop {
+                guard += 1;
+                if guard > 5000 {
+                    problems.push("stall: guard".into());
+                    break;
+                }
+                if g.is_finished() {
+                    break;
+                }
+                let mut cl: Vec<String> = g.query_ready_for_cleanup().into_iter().collect();
+                cl.sort();
+                for x in cl {
+                    if r.chance(70) {
+                        if let Err(e) = g.event_job_cleanup_done(&x) {
+                            problems.push(format!("{:?}", e));
+                        }
+                    }
+                }
+                let mut ready: Vec<String> = g.query_ready_to_run().into_iter().collect();
+                ready.sort();
+                if ready.is_empty() && running.is_empty() {
+                    problems.push("stall: not finished, nothing ready, nothing running".into());
+                    break;
+                }
+                if let Some(k) = abort_after {
+                    if events >= k {
+                        if let Err(e) = g.abort_remaining() {
+                            problems.push(format!("{:?}", e));
+                        }
+                        break;
+                    }
+                }
+                let start = !ready.is_empty() && (running.is_empty() || r.chance(50));
+                if start {
+                    let j = ready[r.below(ready.len() as u64) as usize].clone();
+                    // C02: every Ephemeral direct upstream was executed in this evaluation
+                    for (u, d) in &w.edges {
+                        if *d == j {
+                            let ku = w.nodes.iter().find(|x| x.0 == *u).unwrap().1;
+                            if ku == JobKind::Ephemeral && !executed_ok.contains(u) {
+                                problems.push(format!("C02: {} offered, ephemeral upstream {} not executed", j, u));
+                            }
+                        }
+                    }
+                    if let Err(e) = g.event_now_running(&j) {
+                        problems.push(format!("{:?}", e));
+                        break;
+                    }
+                    running.push(j);
+                } else {
+                    let k = r.below(running.len() as u64) as usize;
+                    let j = running.remove(k);
+                    let idx: usize = j[1..].parse().unwrap();
+                    events += 1;
+                    let res = if fails[idx] {
+                        g.event_job_finished_failure(&j)
+                    } else {
+                        if w.nodes[idx].1 == JobKind::Output {
+                            present.borrow_mut().insert(j.clone());
+                        }
+                        executed_ok.insert(j.clone());
+                        g.event_job_finished_success(&j, format!("{}v{}", j, version[idx]))
+                    };
+                    if let Err(e) = res {
+                        let t = format!("{:?}", e);
+                        if t.contains("InternalError") {
+                            problems.push(t);
+                            break;
+                        }
+                    }
+                }
+            }
+            let h = if g.is_finished() {
+                match g.new_history() {
+                    Ok(h) => Some(h),
+                    Err(e) => {
+                        problems.push(format!("{:?}", e));
+                        None
+                    }
+                }
+            } else {
+                None
+            };
+            let p = present.borrow().clone();
+            (problems, h, p)
+        }));
+        match res {
+            Err(_) => {
+                c.panics += 1;
+                if c.first.len() < 6 {
+                    c.first.push(format!("scenario {} round {}: panic", tag, round));
+                }
+                return;
+            }
+            Ok((problems, h, p)) => {
+                for pr in &problems {
+                    if pr.contains("InternalError") {
+                        c.internal_errors += 1;
+                    } else if pr.starts_with("stall") {
+                        c.stalls += 1;
+                    } else if pr.starts_with("C02") {
+                        c.eph_upstream_not_executed += 1;
+                    }
+                    if c.first.len() < 6 {
+                        c.first.push(format!("scenario {} round {}: {}", tag, round, &pr[..pr.len().min(160)]));
+                    }
+                }
+                w.present = p;
+                match h {
+                    Some(h) => w.history = h,
+                    None => return,
+                }
+            }
+        }
+    }
+}
+
+fn sanity(n: u64, seed: u64) {
+    let mut rng = Lcg(seed);
+    let mut c = SanityCounts::default();
+    for t in 0..n {
+        sanity_one(&mut rng, &mut c, t);
+    }
+    println!(
+        "{{\"sanity\": true, \"scenarios\": {}, \"evaluations\": {}, \"internal_errors\": {}, \"panics\": {}, \"stalls\": {}, \"ephemeral_upstream_not_executed\": {}, \"first\": {:?}}}",
+        n, c.evaluations, c.internal_errors, c.panics, c.stalls, c.eph_upstream_not_executed, c.first
+    );
+}
+
 fn main() {
     let which: Vec<String> = std::env::args().skip(1).collect();
+    if which.first().map(|x| x == "sanity").unwrap_or(false) {
+        std::panic::set_hook(Box::new(|_| {}));
+        let n = which.get(1).and_then(|x| x.parse().ok()).unwrap_or(1000);
+        let seed = which.get(2).and_then(|x| x.parse().ok()).unwrap_or(1);
+        sanity(n, seed);
+        return;
+    }
     let all = which.is_empty();
     let run = |n: &str, f: &dyn Fn()| {
         if all || which.iter().any(|w| w == n) {
